@@ -95,6 +95,15 @@ Alloc(st, n, d, b2) == [base |-> b2,
                         val  |-> [st.val EXCEPT ![n] = Zero(Lo(b2), d)]]
 Dimmed(st, a) == {Alloc(st, a.name, AutoDims(Len(a.idx)), b2) : b2 \in BasesAfterAlloc(st.base)}
 
+\* OPTION BASE b took effect.  Demanded only while no array exists or the lower bound stays the same (then the
+\* values are untouched); made total for the reporting of a violation: elements keep their value where the
+\* tuple stays in bounds.
+Rebox(st, b) ==
+    [base |-> b, dims |-> st.dims,
+     val  |-> [n \in Names |-> IF IsDim(st, n)
+                               THEN [t \in Box(Lo(b), st.dims[n]) |-> IF t \in DOMAIN st.val[n] THEN st.val[n][t] ELSE 0]
+                               ELSE <<>>]]
+
 \* the value a successful read returns: the element's own value (0 if the array was just dimensioned)
 Res(st, a) == IF IsDim(st, a.name) THEN st.val[a.name][a.idx] ELSE 0
 
@@ -102,7 +111,7 @@ Res(st, a) == IF IsDim(st, a.name) THEN st.val[a.name][a.idx] ELSE 0
 Posts(st, a, ok) ==
     CASE a.op = "dim" ->
            IF ok THEN {Alloc(st, a.name, a.b, b2) : b2 \in BasesAfterAlloc(st.base)} ELSE {st}
-      [] a.op = "base" -> IF ok THEN {[st EXCEPT !.base = a.b]} ELSE {st}
+      [] a.op = "base" -> IF ok THEN {Rebox(st, a.b)} ELSE {st}
       [] a.op = "erase" ->
            IF ~ok THEN {st}
            ELSE LET s1 == [st EXCEPT !.dims[a.name] = <<>>, !.val[a.name] = <<>>]
